@@ -53,10 +53,10 @@ impl Check for C04 {
         ]
     }
     fn cases(&self, tier: Tier) -> u64 {
-        tier.pick(192, 4_000)
+        tier.pick(576, 4_000)
     }
     fn min_nontrivial(&self, tier: Tier) -> u64 {
-        tier.pick(800, 15_000)
+        tier.pick(2_400, 15_000)
     }
     fn shard_budget(&self, tier: Tier) -> std::time::Duration {
         tier.pick(std::time::Duration::from_secs(200), std::time::Duration::from_secs(1500))
